@@ -9,6 +9,7 @@ import (
 	ppb "github.com/google/fhir/go/proto/google/fhir/proto/r4/core/resources/patient_go_proto"
 	"sort"
 	"strings"
+	"sync"
 	"testing"
 
 	dtpb "github.com/google/fhir/go/proto/google/fhir/proto/r4/core/datatypes_go_proto"
@@ -205,7 +206,24 @@ var c12Specs = func() []string {
 type c12Case struct {
 	Res   string   `json:"res"`
 	Specs []string `json:"specs"`
-	Pick  int      `json:"pick"` // node sampling offset
+	Pick  int      `json:"pick"`           // node sampling offset
+	Only  string   `json:"only,omitempty"` // ask only about the top-level element of this name (top-level-elements stage)
+}
+
+// c12EnumTop: every top-level element of every R4 resource type once: a resource in which
+// that element is forced to be populated; its first node is asked about its own hierarchy.
+func c12EnumTop(yield func(c12Case)) {
+	for ti, rt := range allResTypes {
+		fs := rt.Field.Message().Fields()
+		for i := 0; i < fs.Len(); i++ {
+			f := fs.Get(i)
+			if f.Message() == nil || f.ContainingOneof() != nil || f.JSONName() == "contained" || f.JSONName() == "text" {
+				continue
+			}
+			r := genResource(fixedSrc{ti*1000 + i + 1}, rt.Name, genOpts{MaxDepth: 2, Budget: 25, P0: 8, Force: []string{f.JSONName()}})
+			yield(c12Case{Res: resToText(r), Only: f.JSONName(), Pick: ti + i})
+		}
+	}
 }
 
 func c12Gen(s Src) c12Case {
@@ -216,6 +234,8 @@ func c12Gen(s Src) c12Case {
 	}
 	return c
 }
+
+var c12SeenTypes sync.Map
 
 func c12Run(ctx *Ctx, c c12Case) {
 	res, err := resFromText(c.Res)
@@ -238,8 +258,42 @@ func c12Run(ctx *Ctx, c c12Case) {
 	if len(nodes) > 25 {
 		step = len(nodes)/25 + 1
 	}
+	// nodes of a message type this process has not asked about yet come first (every R4 message
+	// type gets its turn as soon as the generator produces it), then a stepped sample
+	var picked []*Node
+	inPick := map[*Node]bool{}
+	for _, n := range nodes {
+		if len(picked) >= 15 {
+			break
+		}
+		if n.Msg == nil || n.Synth {
+			continue
+		}
+		fn := n.Msg.ProtoReflect().Descriptor().FullName()
+		if _, seen := c12SeenTypes.LoadOrStore(fn, true); !seen {
+			picked = append(picked, n)
+			inPick[n] = true
+		}
+	}
 	for i := c.Pick % step; i < len(nodes); i += step {
-		n := nodes[i]
+		if !inPick[nodes[i]] {
+			picked = append(picked, nodes[i])
+		}
+	}
+	if c.Only != "" {
+		picked = nil
+		if ks := root.Kids[c.Only]; len(ks) > 0 {
+			picked = append(picked, ks[0])
+			ks[0].walk(func(n *Node) {
+				if len(picked) < 6 {
+					picked = append(picked, n)
+				}
+			})
+		} else {
+			ctx.Count("top_level_element_not_generated")
+		}
+	}
+	for _, n := range picked {
 		path := typ
 		if n != root {
 			path = renderSteps(typ, c02IndexedSteps(n, 0xffff))
@@ -557,11 +611,12 @@ func c12RunSys(ctx *Ctx, c c12SysCase) {
 
 func TestC12(t *testing.T) {
 	r := newRec("C12",
-		fmt.Sprintf("a resource case is one generated resource of any R4 type: ≤ 25 sampled nodes of its JSON tree (addressed by fully indexed paths) × 12 (quick) / 40 (thorough) type specifiers drawn from %d texts = {146 resource names, %d datatype names, 19 primitive names in both cases, Element, BackboneElement, Resource, DomainResource, Any, Quantity} × {unqualified, FHIR., System.} ∪ invalid specifiers; each evaluates `x is T` and `x as T`.  A second, exhaustive stage puts a value of each of the 49 datatypes allowed in Extension.value[x] (uuid, oid, canonical, markdown, Age, Count, … which hardly occur elsewhere) into an extension and asks every datatype and primitive name about it; a third asks every specifier about 22 literals and function results of every System type.  non-trivial = T is valid and is a strict ancestor of, or unrelated to, the declared type; distinct = FNV-64 of (resource, source)", len(c12Specs), len(datatypeNames)),
+		fmt.Sprintf("a resource case is one generated resource of any R4 type: ≤ 15 nodes of message types not asked about before in this process plus ≤ 25 sampled nodes of its JSON tree (addressed by fully indexed paths) × 12 (quick) / 40 (thorough) type specifiers drawn from %d texts = {146 resource names, %d datatype names, 19 primitive names in both cases, Element, BackboneElement, Resource, DomainResource, Any, Quantity} × {unqualified, FHIR., System.} ∪ invalid specifiers; each evaluates `x is T` and `x as T`.  An exhaustive stage forces every top-level element of every R4 resource type to be populated once and asks that node (and up to five below it) about its own hierarchy.  A second, exhaustive stage puts a value of each of the 49 datatypes allowed in Extension.value[x] (uuid, oid, canonical, markdown, Age, Count, … which hardly occur elsewhere) into an extension and asks every datatype and primitive name about it; a third asks every specifier about 22 literals and function results of every System type.  non-trivial = T is valid and is a strict ancestor of, or unrelated to, the declared type; distinct = FNV-64 of (resource, source)", len(c12Specs), len(datatypeNames)),
 		"declared types come from the proto annotations (fhir_structure_definition_url, fhir_valueset_url, schema position), the R4 hierarchy from a hand-written table", "BackboneElement ancestry of the eight datatypes R4 derives from BackboneElement, and of components nested in datatypes, is not asserted")
 	runProperty(t, r,
 		Stage[c12SysCase]{Name: "system-values", Enum: c12EnumSys, Run: c12RunSys},
 		Stage[c12ExtCase]{Name: "extension-values", Enum: c12EnumExt, Run: c12RunExt},
+		Stage[c12Case]{Name: "top-level-elements", Enum: c12EnumTop, Run: c12Run},
 		Stage[c12Case]{Name: "resources", Gen: c12Gen, Run: c12Run, N: pick(150, 700)},
 	)
 }
